@@ -1,12 +1,35 @@
-"""C11 — side effects only with permission.  K-crate: permission lookup + every effectful native with recording doubles."""
-from . import kcrate
+"""C11 — side effects only with permission.  K-unit: permission lookup; K-crate: check_permission and every effectful
+native called with recording doubles for writer / clock / rng."""
+import os
+import re
+
+from . import core, kcrate, kunit
 
 OUT = [
     "paths through prelude wrappers and lazily evaluated sequences (the guard is inside the native, which is what is checked)",
     "the granted branch of sleep and regex (FFI / regex compilation are not encodable); they are asserted on the denied branch only",
+    "std HashMap inside PermissionSet is replaced by a finite-map model in the K-unit lookup harness (hashbrown does not finish in CBMC)",
 ]
 
 
 def run(chk):
+    # K-unit part
+    crate = kunit.prepare(chk)
+    chk.assumptions += kunit.ASSUMPTIONS + ["permissions.rs is compiled with `use std::collections::HashMap` redirected to an association-list model"]
+    if not crate.build():
+        raise core.Inconclusive("K-unit build failed:\n" + crate.build_log[-3000:])
+    src = open(os.path.join(core.VERIF, "kani/unit/src/h/c11.rs")).read()
+    names = ["h::c11::" + n for n in re.findall(r"#\[kani::proof\](?:\s*#\[[^\]]*\])*\s*fn (c11_\w*)", src)]
+    if chk.only:
+        names = [n for n in names if any(o in n for o in chk.only)]
+    tmo = 300 if chk.tier == "quick" else 1800
+    files = "src/permissions.rs (sha256 %s), src/builtin/builtin_permissions.rs (sha256 %s)" % (
+        crate.hashes.get("src/permissions.rs"), crate.hashes.get("src/builtin/builtin_permissions.rs"))
+    obs = core.run_harnesses(chk, crate, [dict(name=n, timeout=tmo, info=dict(functions_encoded=files, timeout=tmo,
+                             bounds="<= 3 symbolic allow/forbid writes over the six permissions, symbolic query")) for n in names],
+                             logdir=os.path.join(core.CACHE, "logs", "C11"))
+    core.triage(chk, crate, obs, {})
+    # K-crate part
     return kcrate.run(chk, [("runtime.rs", "c11_"), ("builtin__generic.rs", "c11_"), ("builtin__datetime.rs", "c11_"),
-                            ("builtin__sequence.rs", "c11_"), ("builtin__regex.rs", "c11_")], out=OUT)
+                            ("builtin__sequence.rs", "c11_"), ("builtin__regex.rs", "c11_"), ("builtin__cont_distributions.rs", "c11_"),
+                            ("builtin__disc_distributions.rs", "c11_")], out=OUT)
